@@ -144,8 +144,18 @@ func c02verdict(mode string, withStop bool, c *client, conn *vnet.VConn, reqs []
 
 var c02events = []string{"none", "remove-host", "replace-hosts", "upstream-stop", "node-reset", "node-down"}
 
-func c02upstreamBody() {
-	ev := c02events[sched.Choose(sched.ClsInput, len(c02events), "event")]
+func c02upstreamBody() { c02upstream(false) }
+
+// the same with the first request's slot group moved just before: its node answers MOVED and the request is
+// redirected by that backend client's reader while the event happens
+func c02upstreamRedirectBody() { c02upstream(true) }
+
+func c02upstream(moved bool) {
+	events := c02events
+	if moved {
+		events = []string{"none", "remove-host", "replace-hosts", "upstream-stop"}
+	}
+	ev := events[sched.Choose(sched.ClsInput, len(events), "event")]
 	multi := sched.Choose(sched.ClsInput, 2, "multi-key") == 1
 	cl := cluster.New(2, 0, 2)
 	s := vfStartStack(cl, vfSvcConfig(0, nil, 0))
@@ -155,6 +165,9 @@ func c02upstreamBody() {
 		r := newRawRequest(newStringArray(args...))
 		raws = append(raws, r)
 		return r
+	}
+	if moved {
+		cl.MoveGroup(0, cl.Masters()[1])
 	}
 	r1 := mk("get", k0)
 	var r2 *rawRequest
@@ -179,7 +192,7 @@ func c02upstreamBody() {
 		sched.GoNamed("event", func() { n0.Stop() })
 	}
 	sched.WaitQuiescent()
-	out := ev + fmt.Sprintf(" multi=%v:", multi)
+	out := ev + fmt.Sprintf(" multi=%v moved=%v:", multi, moved)
 	for _, b := range sched.LiveNonServer() {
 		if strings.HasPrefix(b.Name, "request") || b.Name == "event" {
 			sched.Fail(fmt.Sprintf("caller-blocked-forever / %s / %s", b.Name[:5], ev), fmt.Sprintf("%s is parked in %s", b.Name, b.Kind))
@@ -261,6 +274,13 @@ func init() {
 			b = sched.Bounds{P: 2, F: 2, Sel: 1}
 		}
 		return sched.Config{Bounds: b, Iterative: true}, c02upstreamBody
+	}})
+	sched.Register(&sched.Scenario{Name: "C02/upstream-redirect", Setup: func(tier string) (sched.Config, func()) {
+		b := sched.Bounds{P: 1, F: 1, Sel: 1}
+		if tier == "thorough" {
+			b = sched.Bounds{P: 2, F: 2, Sel: 1}
+		}
+		return sched.Config{Bounds: b, Iterative: true}, c02upstreamRedirectBody
 	}})
 	sched.Register(&sched.Scenario{Name: "C02/stack", Setup: func(tier string) (sched.Config, func()) {
 		b := sched.Bounds{P: 1, F: 1, Env: 1, Sel: 1}
